@@ -97,7 +97,7 @@ func createRedirectSignature(
 		return "", "", err
 	}
 
-	return url.QueryEscape(base64.StdEncoding.EncodeToString(sig)), url.QueryEscape(base64.StdEncoding.EncodeToString([]byte(signatureAlgorithm))), nil
+	return base64.StdEncoding.EncodeToString(sig), signatureAlgorithm, nil
 }
 
 func BuildRedirectQuery(
